@@ -59,6 +59,11 @@ fn main() {
         "stark" => p3r_verif_harness::stark::cmd(&args[2..]),
         "npo-cells" => p3r_verif_harness::npocells::cmd(&args[2..]),
         "npo-honest" => p3r_verif_harness::merklepath::cmd(&args[2..]),
+        "alu-schedule" => p3r_verif_harness::alusched::cmd(&args[2..]),
+        "npo-pattern" => p3r_verif_harness::merklepath::cmd_pattern(&args[2..]),
+        "poseidon-rows" => p3r_verif_harness::poseidonrows::cmd(&args[2..]),
+        "npo-start-sum" => p3r_verif_harness::merklepath::cmd_start_sum(&args[2..]),
+        "alpha-chain" => p3r_verif_harness::alusched::cmd_alpha(&args[2..]),
         "digest-npo" => p3r_verif_harness::npodigest::cmd(&args[2..]),
         "stark-expand" => p3r_verif_harness::stark::cmd_expand(&args[2..]),
         "stark-gen" => p3r_verif_harness::stark::cmd_gen(&args[2..]),
